@@ -261,7 +261,7 @@ impl Engine for C07 {
             Tier::Thorough => 3000,
         };
         let prof = GenProfile::standard(32 * 1024);
-        let all_dicts = vec![DictSpec::Repo, DictSpec::Trained { seed: 11, size: 4096 }, DictSpec::Trained { seed: 12, size: 1024 }];
+        let all_dicts = vec![DictSpec::Repo, DictSpec::Trained { seed: 11, size: 4096 }, DictSpec::TrainedRep { seed: 12, size: 1024, rep: [97, 2, 350] }];
         let dicts: Vec<DictSpec> = if HAVE_REFERENCE { all_dicts.iter().filter(|_| r.chance(1, 2)).cloned().collect() } else { vec![] };
         let max_window = match r.below(6) {
             0 => Some(*r.pick(&[1024u64, 4096, 65536, 1 << 20])),
